@@ -601,6 +601,31 @@ fn main() {
             }
         }
     }
+    // ... every stream of length 5 over the letters that make a policy go on, plan of 3 targets: the
+    // tight runs of C06_bound (3 targets + 2 same-target retries = 5 attempts) are reached
+    // deterministically
+    {
+        let letters = ["C", "X/Db.Unavailable:Quorum:2:1", "X/Db.ReadTimeout:Quorum:2:2:0", "X/Db.WriteTimeout:Quorum:1:2:BatchLog",
+            "X/Db.Overloaded", "X/Db.IsBootstrapping", "X/E.BrokenConnectionError:0"];
+        let n = letters.len();
+        for code in 0..n.pow(5) {
+            let mut c = code;
+            let mut sq = Vec::new();
+            for _ in 0..5 {
+                sq.push(letters[c % n]);
+                c /= n;
+            }
+            for p in &POLICIES[..2] {
+                for idem in 0..2 {
+                    for cn in ["Quorum", "EachQuorum"] {
+                        let c = format!("F {p} {idem} {cn} 3 {}", sq.join(" "));
+                        let o = run_any(&env, &c);
+                        out.case(&c, &o);
+                    }
+                }
+            }
+        }
+    }
     // ... and seeded random histories / outcome streams
     let mut r = Rng::new(a.seed);
     for _ in 0..a.n {
